@@ -199,7 +199,7 @@ pub fn cases(ctx: &Ctx) -> Vec<WCase> {
 pub fn run_case(c: &WCase) -> Outcome {
     let tw = twin_of(&c.scn);
     let o = Oracles { c01: true, c06: true, ..Default::default() };
-    let mut out = run_world_case(c, o, "C05", &|w, out| {
+    let mut out = run_world_case(c, o, "C05", &[], &|w, out| {
         // (c) the input stream stays intact: C01 / C06 oracles are part of C05's verdict here
         for v in &w.viols {
             if v.prop == "C01" || v.prop == "C06" {
